@@ -22,7 +22,9 @@ def check(case):
     sp, stochastic = case["spec"], case["stochastic"]
     flavour = "stochastic_export" if stochastic else "deterministic_export"
     with specmod.quiet():
-        M = specmod.to_model(sp)
+        M = specmod.to_model(sp, share_dicts=bool(case.get("share_dicts")))
+    if case.get("share_dicts"):
+        res.label("shared_parameter_dictionary")
     path = export(M, stochastic)
     try:
         doc = libsbml.readSBML(path)
@@ -104,10 +106,22 @@ def tiny_rate_constants(draw, sp):
             rx["tiny"] = True
 
 
+def shared_rate_constant(draw, sp):
+    """Now and then all mass-action reactions share one named rate constant and are built from one dict object."""
+    ma = [rx for rx in sp["reactions"] if rx["type"] == "massaction"]
+    if len(ma) >= 2 and draw(st.integers(0, 4)) == 0:
+        sp["params"]["kshared"] = draw(gen.logfl(0.05, 5))
+        for rx in ma:
+            rx["pd"] = {"k": "kshared"}
+        return True
+    return False
+
+
 @st.composite
 def cases(draw):
     sp = draw(gen.structural_models(step=False, time=False, delay_prob=5))
     tiny_rate_constants(draw, sp)
+    share = shared_rate_constant(draw, sp)
     stochastic = draw(st.booleans())
     states = []
     for _ in range(draw(st.integers(2, 5))):
@@ -115,7 +129,7 @@ def cases(draw):
             states.append({s: float(draw(st.one_of(st.sampled_from([0, 1, 2]), st.integers(0, 12)))) for s in sp["species"]})
         else:
             states.append({s: draw(st.one_of(st.sampled_from([0.0, 1.0]), gen.amount(12))) for s in sp["species"]})
-    return {"kind": "export", "spec": sp, "stochastic": stochastic, "states": states}
+    return {"kind": "export", "spec": sp, "stochastic": stochastic, "states": states, "share_dicts": share}
 
 
 def search(ctx):
